@@ -163,6 +163,28 @@ def live_drops(fl, body, pred=None):
             if l in vlocals and not through_ptr:
                 moved.add((l, pk))
                 changed = True
+        # `v.drain(..)`: every element of v moves into the Drain (which the loop then exhausts); v stays, empty
+        if node["k"] == "call" and callee_matches(body.callee_of(node), "Vec::drain") and len(node["args"]) == 2 and "RangeFull" in ((node.get("argtys") or ["", ""])[1]):
+            a0 = node["args"][0]
+            cur = a0["pl"]["l"] if a0.get("k") in ("move", "copy") and not a0["pl"]["p"] else None
+            for _ in range(4):
+                rd = body.defs.get(cur, []) if cur is not None else []
+                if len(rd) != 1 or rd[0][1] >= len(body.blocks[rd[0][0]]["stmts"]):
+                    break
+                st_ = body.blocks[rd[0][0]]["stmts"][rd[0][1]]
+                rv_ = st_.get("rv") or {}
+                if rv_.get("k") == "ref" and not rv_["pl"]["p"]:
+                    if rv_["pl"]["l"] in vlocals:
+                        moved.add((rv_["pl"]["l"], ()))
+                        changed = True
+                    break
+                if rv_.get("k") == "ref" and rv_["pl"]["p"] == ["*"]:
+                    cur = rv_["pl"]["l"]
+                    continue
+                if rv_.get("k") == "use" and rv_["op"].get("k") in ("move", "copy") and not rv_["op"]["pl"]["p"]:
+                    cur = rv_["op"]["pl"]["l"]
+                    continue
+                break
         # re-initialisation
         tgt = None
         if node["k"] == "assign" and not node["pl"]["p"]:
@@ -339,6 +361,19 @@ def check_routing(rep, fl, rule="R08.2"):
             for m in sites:
                 if callee_matches(c, "CacheCallback::" + m):
                     sites[m].append((b, bi, t))
+    # a call that sits in a closure handed to a std combinator (`res.map(|removed| .. on_exit(..))`) is looked at in
+    # the enclosing function with the closure spliced in, where its argument is in the function's own terms
+    for m in sites:
+        for i_, (b, bi, t) in enumerate(sites[m]):
+            rb_ = facts.body(strip_generics(b.raw["root"]), required=False)
+            for cand in (b, rb_):   # the body itself (a coroutine's), then the function that owns the closure
+                fb_ = facts.flat(cand) if cand is not None else None
+                if fb_ is None or fb_ is cand:
+                    continue
+                same = [(x, tt) for x, tt in fb_.calls() if tt.get("sp") == t.get("sp") and callee_matches(fb_.callee_of(tt), "CacheCallback::" + m)]
+                if len(same) == 1:
+                    sites[m][i_] = (fb_, same[0][0], same[0][1])
+                    break
     expect = {
         "on_exit": {fl.cache + "::try_update", fl.cache + "::try_remove", fl.processor + "::handle_item", "CacheCallback::on_evict", "CacheCallback::on_reject"},
         "on_evict": {fl.processor + "::handle_item", fl.processor + "::handle_cleanup_event", fl.cleaner + "::handle_item"},
@@ -353,7 +388,7 @@ def check_routing(rep, fl, rule="R08.2"):
     # value provenance per site
     for b, bi, t in sites["on_exit"]:
         root = strip_generics(b.raw["root"])
-        a = [norm(x) for x in b.call_args(t)]
+        a = [resolve_payloads(b, x) for x in b.call_args(t)]
         v = a[1]
         if root == fl.cache + "::try_update":
             ok = v[0] == "agg" and v[2].endswith("Option::Some") and v[3][0][0] == "field" and v[3][0][1][0] == "downcast" and v[3][0][1][2] == "Update"
